@@ -9,13 +9,14 @@
 -/
 import GemVerif.Model.Optim
 import GemVerif.Model.Sparse
+import GemVerif.Model.Prox
 import GemVerif.NumReal
 import Mathlib.Analysis.SpecialFunctions.Pow.Real
 import Mathlib.Tactic.Positivity
 import Mathlib.Tactic.Linarith
 
 namespace GemVerif.Props.C03Optim
-open GemVerif GemVerif.Model.Optim
+open GemVerif GemVerif.Model.Optim GemVerif.Model.Prox
 
 /-- `powNat` is the power function. -/
 theorem powNat_eq (b : ℝ) (t : ℕ) : powNat b t = b ^ t := by
@@ -184,6 +185,22 @@ theorem sgd_consistent_sign (c : SgdCfg ℝ) (gs : List ℝ) (w v : ℝ) (hlr : 
     obtain ⟨a, b⟩ := ih (w + (sgdStep c v g).2) (sgdStep c v g).1 hv' (fun x hx => hg x (by simp [hx]))
     simp only [sgdRun]
     exact ⟨by linarith, b⟩
+
+/-- an eliminated feature stays eliminated: a weight row that is exactly zero, whose coordinates all have an all-zero gradient
+    history (C06: the gradient of an unselected feature's row is zero when its inputs do not reach the output), is still exactly
+    zero after any number of Adam updates followed by the group-lasso proximal step of the sparse linear model — for every threshold. -/
+theorem eliminated_row_stays_zero_adam {h : ℕ} (c : AdamCfg ℝ) (gs : Fin h → List ℝ) (t : ℕ) (al : ℝ)
+    (hz : ∀ j, ∀ g ∈ gs j, g = 0) :
+    linearProxRow (fun j => (adamRun c (gs j) (0, { t := t, m := 0, v := 0 })).1) al = fun _ => 0 := by
+  funext j
+  simp [linearProxRow, adam_zero_history_fixed c _ 0 t (hz _)]
+
+/-- the same under SGD (momentum and Nesterov included). -/
+theorem eliminated_row_stays_zero_sgd {h : ℕ} (c : SgdCfg ℝ) (gs : Fin h → List ℝ) (al : ℝ)
+    (hz : ∀ j, ∀ g ∈ gs j, g = 0) :
+    linearProxRow (fun j => (sgdRun c (gs j) (0, 0)).1) al = fun _ => 0 := by
+  funext j
+  simp [linearProxRow, sgd_zero_history_fixed c _ 0 (hz _)]
 
 /-- hypotheses of the theorems above hold at scikit-learn's defaults as GemClus uses them (non-vacuity). -/
 example : (0 : ℝ) < 1e-3 ∧ (0 : ℝ) ≤ 0.9 ∧ (0.9 : ℝ) < 1 ∧ (0 : ℝ) ≤ 0.999 ∧ (0.999 : ℝ) < 1 ∧ (0 : ℝ) < 1e-8 := by
